@@ -114,7 +114,8 @@ static void enqueue(const void *buf, int size, int dest, int tag)
 	m->tag = tag;
 	m->size = size;
 	m->serial = ++serial;
-	memcpy(m->data, buf, (size_t)size); /* eager protocol: the buffer is read at the time of the send */
+	if(size > 0) /* MPI allows a null buffer with count 0 (an empty statistics file is sent that way) */
+		memcpy(m->data, buf, (size_t)size); /* eager protocol: the buffer is read at the time of the send */
 	uint64_t d = 0;
 	if(cfg.delay_max && (rsv_rand() & 255) < cfg.delay_prob) {
 		d = rsv_rand() % cfg.delay_max;
@@ -227,7 +228,8 @@ int MPI_Mrecv(void *buf, int count, MPI_Datatype t, MPI_Message *msg, MPI_Status
 	(void)t;
 	(void)st;
 	struct fm_msg *m = *msg;
-	memcpy(buf, m->data, (size_t)(m->size < count ? m->size : count));
+	if(m->size > 0 && count > 0)
+		memcpy(buf, m->data, (size_t)(m->size < count ? m->size : count));
 	free(m);
 	*msg = NULL;
 	return 0;
